@@ -284,11 +284,44 @@ def Net.fireAllowed (c : SCfg) (net : Net) (i : Nat) : Bool :=
     | some e, some m => e ≤ m + c.skew
     | _, _ => true)
 
-/-- **synchronous suffix**: closure, then for each choice `i` of `picks`: node `i`'s pending timeout
-fires if it is eligible (the net is closed at that moment), closure again -/
-def syncRun (c : SCfg) (net : Net) (picks : List Nat) : Net :=
-  picks.foldl (fun net i => if net.fireAllowed c i then (net.fire c i).closure c else net)
-    ({ net with synced := true }.closure c)
+/-! ### schedules -/
+
+/-- one scheduler / adversary move -/
+inductive Op
+  | dl (i k : Nat)                                   -- log entry `k` reaches the node at position `i`
+  | byz (m : Msg)                                    -- a faulty validator sends `m`
+  | claim (i j : Nat)                                -- node `i` receives node `j`'s majority claims
+  | byzclaim (i r : Nat) (t : VType) (peer : Peer) (b : Bid)   -- a faulty peer claims a majority
+  | fire (i : Nat)                                   -- node `i`'s pending timeout fires (if eligible)
+  | closure
+  | sync                                             -- the synchrony point
+  deriving Repr, Inhabited
+
+/-- peers are `1 + validator index`; a faulty peer is one that is not a correct node -/
+def Net.faultyPeer (c : SCfg) (net : Net) (peer : Peer) : Bool :=
+  peer ≠ 0 && peer ≤ c.cfg.n && !(net.nodes.any fun nd => nd.idx + 1 = peer)
+
+def Net.op (c : SCfg) (net : Net) : Op → Net
+  | .dl i k => { net.deliver c i k with closed := false }
+  | .byz m => (net.byz m).getD net
+  | .claim i j => { net.claim c i j with closed := false }
+  | .byzclaim i r t peer b => if net.faultyPeer c peer then net.input c i (.peerMaj23 r t peer b) else net
+  | .fire i =>
+    if net.synced ∧ !net.closed then net
+    else if net.fireAllowed c i then net.fire c i else net
+  | .closure => net.closure c
+  | .sync => { net with synced := true }
+
+def Net.run (c : SCfg) (net : Net) (ops : List Op) : Net := ops.foldl (Net.op c) net
+
+/-- **synchronous suffix**: the synchrony point, closure, then for each move of `moves` (a timeout
+firing — only if eligible: the net is closed at that moment and no other timer is due more than
+`skew` earlier —, or anything a faulty validator does): the move, then closure again -/
+def syncRun (c : SCfg) (net : Net) (moves : List Op) : Net :=
+  moves.foldl (fun net mv => (net.op c mv).closure c) ({ net with synced := true }.closure c)
+
+/-- some node that can still act has a timer pending -/
+def Net.somePending (net : Net) : Bool := net.nodes.any fun nd => nd.expiry.isSome
 
 def Net.allDecided (net : Net) : Bool := net.nodes.all fun nd => nd.s.decided.isSome
 
